@@ -628,4 +628,22 @@ example :
       .ok (.obj [("t", .int 16), ("a", .int 9), ("b", .null)]) := by
   refine ⟨by decide, by rfl⟩
 
+/-- **KF-C04-esize-narrow-static**: `struct Rec1 { body: 8[4] } packet Es1 { _elementsize_(r1): 2, fl1: 6, r1: Rec1[] }`
+    (big-endian).  An element-size field is not consulted for elements of static size: `c7 94 b3 f1 c1` (element size 3
+    announced, one element of 4 octets present) is accepted by the reference decoder and by the model of the emitted decoder
+    alike, but the value cannot be written back — element size 4 does not fit the 2-bit field — so the clause
+    `encode(decode_full(b)) = b` is false of this layout for both; the layout is outside `exactWfBody` -/
+theorem esize_too_narrow_accepted_but_unencodable :
+    let rec1 : Body := .root "Rec1" (.cons (.array "body" (.scalar 8) (.static 1) (.static 4) none) .nil)
+    let items : Items := .cons (.chunk [.elemSize "r1" 2, .scalar "fl1" 6])
+      (.cons (.array "r1" (.struct "Rec1" rec1) (.static 4) .unknown none) .nil)
+    let v : Value := .obj [("fl1", .int 49), ("r1", .arr [.obj [("body", .arr [.int 148, .int 179, .int 241, .int 193])]])]
+    exactWfBody (.root "Es1" items) = false ∧
+    decodeFull { e := .big, mode := .ideal } (.root "Es1" items) [0xc7, 0x94, 0xb3, 0xf1, 0xc1] = .ok v ∧
+    decodeFull { e := .big, mode := .rust } (.root "Es1" items) [0xc7, 0x94, 0xb3, 0xf1, 0xc1] = .ok v ∧
+    encBody { e := .big, mode := .ideal } (.root "Es1" items) v = .err .sizeOverflow ∧
+    encBody { e := .big, mode := .rust } (.root "Es1" items) v = .err .sizeOverflow := by
+  refine ⟨by decide, by rfl, by rfl, by rfl, by rfl⟩
+
+
 end Pdlv
